@@ -1340,7 +1340,7 @@ package avro
 //@   loop 2 invariant distinctNames(schema) ==> forall j int, k int :: 0 <= j && j < k && k <= rangeindex && present(addr(rc), j) && present(addr(rc), k) ==> disjointFields(addr(rc), j, k)
 //@   loop 2 invariant [C12] regFree()
 //     the backing array of rc.fields is memory of this activation; record-field cells that existed at entry are untouched
-//@   loop 2 invariant freshrange(rc.fields.ptr, cap(rc.fields) * 40) && 0 <= cap(rc.fields) && cap(rc.fields) < 1<<40 && heapframe("recordCodecField")
+//@   loop 2 invariant freshrange(rc.fields.ptr, cap(rc.fields) * 40) && 0 <= cap(rc.fields) && cap(rc.fields) < 1<<48 && heapframe("recordCodecField")
 //@   loop 2 uses recsz_def(addr(rc))
 //@   loop 2 uses struct_layout_all(d)
 //@   uses struct_layout_all(d)
